@@ -478,6 +478,8 @@ def oracle_case(case, line):
     if has_fault:
         if end in ("EPROTO",) and kind != "proto":
             return ("protocol error reported on a valid stream", tag)
+        if end not in (None, "closed", "EIO", "EPROTO", "ECONNRESET"):
+            return ("failed transport read (EIO) reported to the caller with errno %s (errno not preserved across the error log)" % end, tag)
         return None
     last = recs[-1] if recs else None
     finished = last is not None and (end is not None or (last["ret"] == "-1" and last["e"] == "EAGAIN"))
@@ -728,6 +730,19 @@ def det_offer_requests():
     return out
 
 
+def det_classification_requests():
+    """deterministic: (a) first bytes that are NOT `GET ` (nor `RFB `): not an upgrade request, the
+    connection is refused (no 101, no WebSocket context); (b) complete valid upgrade requests after which the
+    client half-closes its side: still answered with 101"""
+    key = base64.b64encode(hashlib.sha1(b"classify").digest()[:16]).decode()
+    tail = (" /websockify HTTP/1.1\r\nHost: example.org\r\nUpgrade: websocket\r\nConnection: Upgrade\r\nSec-WebSocket-Key: " + key +
+            "\r\nOrigin: http://example.org\r\nSec-WebSocket-Protocol: binary\r\nSec-WebSocket-Version: 13\r\n\r\n")
+    out = ["hs " + (first + tail).encode().hex() for first in ("GETX", "GET\t", "GETS", "GET/", "get ", "Get ", "GE T", "PUT ", "HEAD")]
+    for proto in ("binary", "base64", "chat, binary"):
+        out.append("hs " + ("GET" + tail.replace("Protocol: binary", "Protocol: " + proto)).encode().hex() + " closed")
+    return out
+
+
 def offer_tokens(value):
     return [t.strip(" \t") for t in value.split(",") if t.strip(" \t")]
 
@@ -745,6 +760,10 @@ def oracle_hs(req, ob):
             k, v = l.split(": ", 1); hd[k.lower()] = v
             if k.lower() == "sec-websocket-protocol":
                 offers.append(v)
+    if not text.startswith("GET "):
+        if not ob.startswith("hs fail"):     # neither `RFB ` nor `GET `: webSocketsCheck refuses the connection
+            return "first bytes %r are neither `RFB ` nor `GET `, yet the connection was accepted: %s" % (text[:4], ob[:80])
+        return None
     ok_expected = (lines[0].startswith("GET ") and "sec-websocket-key" in hd and "host" in hd and
                    hd.get("sec-websocket-version") == "13" and ("origin" in hd or "sec-websocket-origin" in hd))
     if ob.startswith("hs fail"):
@@ -972,60 +991,83 @@ THR_MARK = 0xfffe
 def thr_cases(rng):
     """the same RFB conversation over plain TCP and over WebSocket, served by the THREADED loop, with
     frame boundaries chosen so that in every protocol state (version, security type, authentication,
-    initialisation, normal) one frame carries the end of that state's message and what follows"""
+    initialisation, normal) one frame carries the end of that state's message and what follows.
+    Two conversations per authentication flavour: a short one (every frame fits the decode buffer;
+    deterministic groupings, sent back to back and by an interactive client that lets the server
+    catch up between frames) and a longer random one (random groupings)."""
     out = []
     for auth in (0, 1):
-        msgs = [b"RFB 003.008\n", bytes([2 if auth else 1])]
-        if auth:
-            msgs.append(b"0123456789abcdef")
-        msgs.append(bytes([1]))
-        ev = []
-        msgs.append(bytes([2, 0]) + struct.pack(">H", 1) + struct.pack(">i", 0))
-        for j in range(10):
-            r = rng.random()
-            if r < 0.4:
-                down, key = rng.randrange(2), rng.choice([0x61, 0xff0d, 0x20ac])
-                msgs.append(struct.pack(">BBHI", 4, down, 0, key)); ev.append("k%d:%d" % (down, key))
-            elif r < 0.8:
-                m, x, y = rng.randrange(256), rng.randrange(64), rng.randrange(48)
-                msgs.append(struct.pack(">BBHH", 5, m, x, y)); ev.append("p%d:%d:%d" % (m, x, y))
+        for conv in ("short", "long"):
+            msgs = [b"RFB 003.008\n", bytes([2 if auth else 1])]
+            if auth:
+                msgs.append(b"0123456789abcdef")
+            msgs.append(bytes([1]))
+            ev = []
+            msgs.append(bytes([2, 0]) + struct.pack(">H", 1) + struct.pack(">i", 0))
+            for j in range(5 if conv == "short" else 12):
+                r = rng.random()
+                if r < 0.4:
+                    down, key = rng.randrange(2), rng.choice([0x61, 0xff0d, 0x20ac])
+                    msgs.append(struct.pack(">BBHI", 4, down, 0, key)); ev.append("k%d:%d" % (down, key))
+                elif r < 0.8:
+                    m, x, y = rng.randrange(256), rng.randrange(64), rng.randrange(48)
+                    msgs.append(struct.pack(">BBHH", 5, m, x, y)); ev.append("p%d:%d:%d" % (m, x, y))
+                else:
+                    n = rng.choice([0, 5, 40] if conv == "short" else [0, 5, 126, 2100, 5000])
+                    t = bytes(0x20 + rng.randrange(95) for _ in range(n))
+                    msgs.append(struct.pack(">BBHI", 6, 0, 0, n) + t); ev.append("c%d:%016x" % (n, fnv(t)))
+            msgs.append(struct.pack(">BBHI", 4, 0, 0, THR_MARK)); ev.append("k0:%d" % THR_MARK)
+            full = b"".join(msgs)
+            offs = [0]
+            for m in msgs:
+                offs.append(offs[-1] + len(m))
+            hs = 4 if auth else 3            # number of handshake-phase messages
+
+            def at(idxs):                    # frame boundaries in front of the messages idxs
+                cuts = sorted(set(offs[i] for i in idxs if 0 < i < len(msgs)))
+                return [full[a:b] for a, b in zip([0] + cuts, cuts + [len(full)])]
+            if conv == "short":
+                groupings = [
+                    ("all-in-one", [full]),                                   # last frame begins in state VERSION
+                    ("version|rest", at([1])),                                # ... SECURITY_TYPE
+                    ("version|sectype|rest", at([1, 2])),                     # ... AUTHENTICATION / INITIALISATION
+                    ("handshake|rest", at([hs])),                             # ... NORMAL
+                    ("per-message", at(range(1, len(msgs)))),
+                    ("sectype+%sinit" % ("auth+" if auth else ""), at([1, hs])),
+                    ("version+sectype", at([2])),
+                    ("handshake-joint", at([hs] + list(range(hs + 2, len(msgs), 2)))),
+                    ("init+messages", at([1, 2] + ([3] if auth else []) + [hs + 3])),
+                    ("mid-message", [full[:5], full[5:offs[hs] + 3], full[offs[hs] + 3:]]),
+                ]
+                if auth:
+                    groupings.append(("version|sectype|auth|rest", at([1, 2, 3])))
+                    groupings.append(("auth+init", at([1, 2, 4])))
+                    groupings.append(("sectype+auth", at([1, 3])))
+                groupings = [(n, c, False) for n, c in groupings] + [(n + ", client waits for the answers", c, True) for n, c in groupings[1:]]
             else:
-                n = rng.choice([0, 5, 126, 2100, 5000])
-                t = bytes(0x20 + rng.randrange(95) for _ in range(n))
-                msgs.append(struct.pack(">BBHI", 6, 0, 0, n) + t); ev.append("c%d:%016x" % (n, fnv(t)))
-        msgs.append(struct.pack(">BBHI", 4, 0, 0, THR_MARK)); ev.append("k0:%d" % THR_MARK)
-        full = b"".join(msgs)
-        offs = [0]
-        for m in msgs:
-            offs.append(offs[-1] + len(m))
-        hs = 4 if auth else 3            # number of handshake-phase messages
-        def at(idxs):                    # frame boundaries in front of the messages idxs
-            cuts = sorted(set(offs[i] for i in idxs if 0 < i < len(msgs)))
-            return [full[a:b] for a, b in zip([0] + cuts, cuts + [len(full)])]
-        groupings = [
-            ("all-in-one", [full]),
-            ("per-message", at(range(1, len(msgs)))),
-            ("sectype+%sinit" % ("auth+" if auth else ""), at([1, hs])),
-            ("version+sectype", at([2])),
-            ("handshake-joint", at([hs] + list(range(hs + 2, len(msgs), 2)))),
-            ("init+messages", at([1, 2] + ([3] if auth else []) + [hs + 3])),
-            ("mid-message", [full[:5], full[5:offs[hs] + 3], full[offs[hs] + 3:]]),
-        ]
-        if auth:
-            groupings.append(("auth+init", at([1, 2, 4])))
-            groupings.append(("sectype+auth", at([1, 3])))
-        for _ in range(2):
-            groupings.append(("random-boundaries", at(sorted(rng.sample(range(1, len(msgs)), rng.randrange(1, 5))))))
-        cuts = sorted(rng.sample(range(1, len(full)), 3))
-        groupings.append(("random-bytes", [full[a:b] for a, b in zip([0] + cuts, cuts + [len(full)])]))
-        tcp = "thr tcp %d %d 6000 %s %s" % (auth, THR_MARK, full[:12].hex(), full[12:].hex())
-        for gi, (name, chunks) in enumerate(groupings):
-            b64 = (gi + auth) % 3 == 1
-            enc = (lambda x: base64.b64encode(x)) if b64 else (lambda x: x)
-            frames = [mk_frame(1 if b64 else 2, enc(c), mask=rnd_mask(rng)) for c in chunks if c]
-            wsop = "thr ws %d %d 6000 %s %s" % (auth, THR_MARK, ws_request(b64, b"thr-%d-%d" % (auth, gi)).hex(), " ".join(f.hex() for f in frames))
-            out.append({"tcp": tcp, "ws": wsop, "auth": auth, "b64": b64, "name": name, "ev": ev,
-                        "frames": [len(c) for c in chunks if c]})
+                groupings = [("all-in-one", [full], False), ("per-message", at(range(1, len(msgs))), False)]
+                for _ in range(2):
+                    groupings.append(("random-boundaries", at(sorted(rng.sample(range(1, len(msgs)), rng.randrange(1, 5)))), rng.random() < .5))
+                cuts = sorted(rng.sample(range(1, len(full)), 3))
+                groupings.append(("random-bytes", [full[a:b] for a, b in zip([0] + cuts, cuts + [len(full)])], False))
+            tcp = "thr tcp %d %d 6000 %s %s" % (auth, THR_MARK, full[:12].hex(), full[12:].hex())
+            for gi, (name, chunks, inter) in enumerate(groupings):
+                b64 = (gi + auth) % 3 == 1
+                enc = (lambda x: base64.b64encode(x)) if b64 else (lambda x: x)
+                frames = [mk_frame(1 if b64 else 2, enc(c), mask=rnd_mask(rng)) for c in chunks if c]
+                toks, pos = [], 0
+                # answers (RFB bytes) the server owes once the handshake messages up to a boundary are in:
+                # its version (12), security types (2), result (4) or challenge (16) + result (4), ServerInit (>= 24)
+                owed = [12, 14, 18, 18 + 24] if not auth else [12, 14, 30, 34, 34 + 24]
+                for c, f in zip([c for c in chunks if c], frames):
+                    pos += len(c)
+                    toks.append(f.hex())
+                    if inter:
+                        k = max(i for i in range(len(offs)) if offs[i] <= pos)       # messages complete so far
+                        toks.append("R%d" % owed[min(k, hs)] if k >= 1 else "W")
+                wsop = "thr ws %d %d 6000 %s %s" % (auth, THR_MARK, ws_request(b64, b"thr-%d-%d" % (auth, gi)).hex(), " ".join(toks))
+                out.append({"tcp": tcp, "ws": wsop, "auth": auth, "b64": b64, "name": conv + " conversation, " + name, "ev": ev,
+                            "frames": [len(c) for c in chunks if c]})
     return out
 
 
@@ -1042,6 +1084,9 @@ def oracle_thr(case, ws_ob, tcp_ob):
         return "%s: the reference run over plain TCP did not complete (%s)" % (what, tcp_ob[:200])
     if w.get("conn") != "ok" or w.get("ws") != "1" or w.get("b64") != str(int(case["b64"])):
         return "%s: WebSocket handshake result %r" % (what, ws_ob[:200])
+    if w.get("noanswer", "0") != "0":
+        return ("%s: over WebSocket the server did not answer the handshake messages up to frame %s within 3 s (%s RFB bytes sent; "
+                "plain TCP: complete) -- RFB bytes of an already decoded frame were left in the decode buffer" % (what, w["noanswer"], w.get("got")))
     if w.get("done") != "1":
         got = w.get("ev", "-")
         return ("%s: over WebSocket the conversation %s after %d of %d events (plain TCP: complete) -- RFB bytes of an already "
@@ -1077,10 +1122,19 @@ def peek_cases():
             for en in ("0", "EAGAIN", "EINTR"):
                 out.append(("peek %s %s - 0" % (full[:k].hex(), en), "ok", 0))
             out.append(("peek %s EAGAIN %s 30" % (full[:k].hex(), full[k:].hex()), "ok", ws))
+    # first byte of a TLS / SSLv2 hello on a server without TLS credentials: refused, not handed to the
+    # RFB layer as a plain client
+    for hello in ("16030100", "16030300", "80460103"):
+        out.append(("peek %s 0 - 0" % hello, "tls", 0))
     return out
 
 
-def oracle_peek(op, ob, want_ws):
+def oracle_peek(op, ob, want_ws, kind="ok"):
+    if kind == "tls":
+        if "client=null" not in ob:
+            return ("connection whose first byte is a TLS hello (0x16 / 0x80) on a server without TLS credentials was not "
+                    "refused: %s" % ob)
+        return None
     if "hung" in ob:
         return "rfbNewClient did not return within 1.5 s with 1-3 greeting bytes pending (busy loop in rfbPeekExactTimeout: no time-out while a partial message is readable)"
     if "client=ok" not in ob:
@@ -1227,7 +1281,8 @@ def run(ctx):
         script = "\n".join(lines) + "\n"
         if any(l.startswith("peek ") for l in lines):
             rc, impl, err = ctx.run_lines(h, script, timeout=120)
-            o = ("harness exit %d" % rc) if rc != 0 else oracle_peek(lines[0], impl[0] if impl else "", 0)
+            tls = lines[0].split()[1][:2] in ("16", "80")
+            o = ("harness exit %d" % rc) if rc != 0 else oracle_peek(lines[0], impl[0] if impl else "", 0, "tls" if tls else "ok")
             if o:
                 fails.append({"kind": "oracle", "what": "C09 connection-time peek oracle (replay)", "detail": o,
                               "script": lines, "impl": impl[:2]})
@@ -1310,7 +1365,7 @@ def run(ctx):
 
     def run_group(g):
         script = "\n".join(l for c in g for l in c["script"]) + "\n"
-        return script, common.compare_streams(ctx, script, h, d, "ws.decoder", timeout=900)
+        return script, common.compare_streams(ctx, script, h, d, "ws.decoder", timeout=(150 if quick else 450))
 
     for g, (script, (impl, model, f)) in zip(groups, common.pmap(run_group, groups)):
         if f and f["kind"] == "crash":
@@ -1364,7 +1419,7 @@ def run(ctx):
 
     # ---- function-level ops (encoder, chunked write, base64, sha1) and handshakes
     corpus_hs, corpus_pk, corpus_wf = load_corpus_ops()
-    flines = corpus_hs + ["hs " + r.hex() for r in det_offer_requests()] + func_lines(rng, ctx.tier)
+    flines = corpus_hs + ["hs " + r.hex() for r in det_offer_requests()] + det_classification_requests() + func_lines(rng, ctx.tier)
     exotic = set(corpus_hs) - corpus_wf      # handshake requests outside the oracle's well-formed class: exact comparison only
     hs_meta = []
     for i in range(60 if quick else 400):
@@ -1378,7 +1433,7 @@ def run(ctx):
 
     def run_f(g):
         script = "\n".join(g) + "\n"
-        return common.compare_streams(ctx, script, h, d, "ws.functions", timeout=900)
+        return common.compare_streams(ctx, script, h, d, "ws.functions", timeout=(120 if quick else 360))
 
     for g, (impl, model, f) in zip(fgroups, common.pmap(run_f, fgroups)):
         if f and f["kind"] == "crash":
@@ -1400,7 +1455,7 @@ def run(ctx):
     e2e = e2e_bigcut_scripts() + [e2e_script(rng) for _ in range(30 if quick else 300)]
 
     def run_e(sm):
-        rc, impl, err = ctx.run_lines(h, sm[0], timeout=900)
+        rc, impl, err = ctx.run_lines(h, sm[0], timeout=(150 if quick else 450))
         return rc, impl, err
 
     for (script, meta), (rc, impl, err) in zip(e2e, common.pmap(run_e, e2e)):
@@ -1469,9 +1524,9 @@ def run(ctx):
         return ctx.run_lines(h, c[0] + "\n", timeout=120)
 
     dist["peek"] = {"ok": 0, "fail": 0}
-    for (op, _, ws), (rc, impl, err) in zip(pk, common.pmap(run_pk, pk, workers=8)):
+    for (op, pkind, ws), (rc, impl, err) in zip(pk, common.pmap(run_pk, pk, workers=8)):
         evals += 1
-        o = ("harness exit %d" % rc) if rc != 0 else oracle_peek(op, impl[0] if impl else "", ws)
+        o = ("harness exit %d" % rc) if rc != 0 else oracle_peek(op, impl[0] if impl else "", ws, pkind)
         dist["peek"]["fail" if o else "ok"] += 1
         if o and sum(1 for f in fails if f.get("what", "").startswith("C09 connection-time peek")) < 2:
             fails.append({"kind": "oracle", "what": "C09 connection-time peek oracle", "detail": o,
